@@ -141,14 +141,14 @@ impl FileSystem for MemoryFS {
     fn read_dir(&self, path: &str) -> VfsResult<Box<dyn Iterator<Item = String> + Send>> {
         let prefix = format!("{}/", path);
         let handle = self.handle.read().unwrap();
-        let mut found_directory = false;
+        let mut found_directory = None;
         #[allow(clippy::needless_collect)] // need collect to satisfy lifetime requirements
         let entries: Vec<_> = handle
             .files
             .iter()
-            .filter_map(|(candidate_path, _)| {
+            .filter_map(|(candidate_path, candidate)| {
                 if candidate_path == path {
-                    found_directory = true;
+                    found_directory = Some(candidate.file_type);
                 }
                 if candidate_path.starts_with(&prefix) {
                     let rest = &candidate_path[prefix.len()..];
@@ -159,8 +159,12 @@ impl FileSystem for MemoryFS {
                 None
             })
             .collect();
-        if !found_directory {
-            return Err(VfsErrorKind::FileNotFound.into());
+        match found_directory {
+            None => return Err(VfsErrorKind::FileNotFound.into()),
+            Some(VfsFileType::File) => {
+                return Err(VfsErrorKind::Other("Not a directory".into()).into())
+            }
+            Some(VfsFileType::Directory) => {}
         }
         Ok(Box::new(entries.into_iter()))
     }
